@@ -307,7 +307,7 @@ def run(ctx, rep):
     names = list(_opt_specs())
     if ctx.quick:
         plan = [("GeneticAlgorithm", 8, [2, -1, 13]), ("DifferentialEvolution", 10, [3, 10, -2]),
-                ("GeneticAlgorithm+g2p", 9, [2, 14, -1])]
+                ("GeneticAlgorithm+g2p", 9, [2, 14, -1]), ("SHADE+g2p", 11, [2, 3])]      # a greedy-family optimizer with a phenotype map too
     else:
         plan = [(nm, pop, LIVE_N_JOBS(pop)) for nm, pop in zip(names, (8, 10, 9, 12, 11))]
     tot_b = perm_b = 0
